@@ -1001,7 +1001,7 @@ func (x *Exec) appendOp(st *State, args []Val, c *ssa.CallCommon, ins ssa.Instru
 	// derived facts in trigger-friendly form (they follow from the definition above)
 	at := x.atFn(et)
 	h2 := x.heap(st, hn, hs)
-	st.assume(fmt.Sprintf("(forall ((i Int)) (! (=> (and (<= 0 i) (< i %s)) (= (%s %s %s i) (%s %s %s i))) :pattern ((%s %s %s i))))", sLen, at, h2, res, at, h, s.T, at, h2, res))
+	st.assume(fmt.Sprintf("(forall ((i Int)) (! (=> (and (<= 0 i) (< i %s)) (= (%s %s %s i) (%s %s %s i))) :pattern ((%s %s %s i)) :pattern ((%s %s %s i))))", sLen, at, h2, res, at, h, s.T, at, h2, res, at, h, s.T))
 	if !isStringTy(t.Ty) {
 		st.assume(fmt.Sprintf("(forall ((j Int)) (! (=> (and (<= %s j) (< j %s)) (= (%s %s %s j) (%s %s %s (- j %s)))) :pattern ((%s %s %s j))))", sLen, n, at, h2, res, at, h, t.T, sLen, at, h2, res))
 		st.assume(implies(eq(tLen, "1"), eq(app(at, h2, res, sLen), app(at, h, t.T, "0"))))
